@@ -94,6 +94,9 @@ func genRegisterOp(t *rapid.T, s int, strict bool, profile string) Op {
 	} else {
 		pol = pick(t, invokePolicies, "invoke")
 	}
+	if pol == "random" && profile == "deterministic" {
+		pol = "roundrobin" // differential runs need the same callee choice in both runs
+	}
 	if pol != "" {
 		op.Opts = append(op.Opts, KV{"invoke", VStr(pol)})
 	}
@@ -331,6 +334,9 @@ func (g *rpcGen) op(t *rapid.T) Op {
 			pol := r.policy
 			if pct(t, 15, "otherpol") {
 				pol = pick(t, invokePolicies, "pol2")
+				if pol == "random" && g.profile == "deterministic" {
+					pol = "roundrobin"
+				}
 			}
 			if pol != "" {
 				op.Opts = append(op.Opts, KV{"invoke", VStr(pol)})
